@@ -9,10 +9,11 @@ from .. import grouplab as G
 
 ID = "C14"
 LEVEL = "exploration"
-RULE = ("a catalogue of multi-class trees (classes of 1-4 files of several sizes over two roots, with and without hard "
+RULE = ("a catalogue of multi-class trees (classes of 1-4 files of several sizes over three roots - one name a string prefix of "
+        "another, some groups without a copy under the first root given -, with and without hard "
         "links; every composition of class sizes up to the bound) x filter {default, --rf-over 0/2, --unique, "
         "--rf-under 3, --isolate, --match-links, transform keep} x format {default, json, csv, fdupes} x {stdout, -o "
-        "file} x both root orders. Oracle: header statistics recomputed from the parsed body by the documented "
+        "file} x three root orders. Oracle: header statistics recomputed from the parsed body by the documented "
         "definitions; per-group count == number of paths; sizes non-increasing; absolute paths; path order inside a "
         "group invariant under root permutation (isolate: roots contiguous in the order given); the four formats "
         "describe the same groups. Non-trivial = report with >= 1 group; distinct by (tree, filter, format, output).")
@@ -31,7 +32,8 @@ def prepare(tier):
 
 
 def catalogue(tier):
-    """Trees: list of classes (size, multiplicity); files alternate between r1/a, r1x/b, r1/c/d."""
+    """Trees: list of classes (size, multiplicity); files alternate between r1/a, r1x/b, r1/c/d, r3/e (three roots,
+    so that some groups have no copy under the first root given)."""
     sizes = [7, 7, 4097, 70000, 1]
     mult_sets = []
     maxm = 3 if tier == "quick" else 4
@@ -46,13 +48,15 @@ def catalogue(tier):
         for ci, m in enumerate(combo):
             size = sizes[ci]
             for j in range(m):
-                d = ["r1/a", "r1x/b", "r1/c/d"][k % 3]
+                d = ["r1/a", "r1x/b", "r1/c/d", "r3/e"][(k + ti) % 4]
                 tree.append({"p": "%s/c%d_%d" % (d, ci, j), "k": "file", "c": ["base", size, ci + 1]})
                 k += 1
         hard = ti % 4 == 1
         if hard:
             tree.append({"p": "r1x/b/hard0", "k": "hard", "to": tree[0]["p"]})
         tree.append({"p": "r1x/b", "k": "dir"})
+        tree.append({"p": "r3/e", "k": "dir"})
+        tree.append({"p": "r1/a", "k": "dir"})
         trees.append((ti, hard, tree))
     return trees
 
@@ -105,6 +109,17 @@ def parse_output(fmt, data):
     raise ValueError(fmt)
 
 
+ROOTS = ["r1", "r1x", "r3"]
+ORDERS = [("r1", "r1x", "r3"), ("r3", "r1", "r1x"), ("r1x", "r3", "r1")]
+
+
+def root_of(p):
+    for r in ROOTS:
+        if ("/" + r + "/").encode() in p:
+            return r
+    return None
+
+
 def evaluate(case):
     viol = []
     fname, fargs = case["filter"], case["fargs"]
@@ -113,9 +128,9 @@ def evaluate(case):
     with C.Scratch() as sc:
         C.make_tree(sc.tree, case["tree"])
         results = {}
-        for order in (["r1", "r1x"], ["r1x", "r1"]):
+        for order in ORDERS:
             for fmt in FORMATS:
-                args = ["group", "--min", "0"] + fargs + order + ["-f", fmt]
+                args = ["group", "--min", "0"] + fargs + list(order) + ["-f", fmt]
                 outfile = None
                 if case["out"] == "file":
                     outfile = os.path.join(sc.root, "report.out")
@@ -137,7 +152,8 @@ def evaluate(case):
                     viol.append(dict(feat, kind="unparsable", format=fmt, detail="%s: %r" % (e, out[:300])))
                     continue
                 results[(tuple(order), fmt)] = (groups, st)
-        ref = G.scan_reference(sc.tree, {"roots": ["r1", "r1x"], "args": fargs})
+        ref = G.scan_reference(sc.tree, {"roots": ROOTS, "args": fargs})
+        root_abs = dict(zip(ROOTS, ref["roots"]))
     files = ref["files"]
 
     def fkey(p):
@@ -173,7 +189,7 @@ def evaluate(case):
                 red_size = 0
                 for g in groups:
                     if isolate:
-                        roots = ref["roots"] if list(order) == ["r1", "r1x"] else list(reversed(ref["roots"]))
+                        roots = [root_abs[r] for r in order]
                         per_root = [sum(1 for p in g["paths"] if C.u(p).startswith(r + "/")) for r in roots]
                         per_root = [x for x in per_root if x]
                         n = sum(per_root[max(rf, 1):])
@@ -202,7 +218,7 @@ def evaluate(case):
                     viol.append(dict(f2, kind="stat_mismatch", field=k,
                                      detail="header %s=%s, body gives %s; order %s" % (k, st.get(k), v, order)))
     # formats agree (same order of roots)
-    for order in (("r1", "r1x"), ("r1x", "r1")):
+    for order in ORDERS:
         base = results.get((order, "json"))
         if not base:
             continue
@@ -219,31 +235,31 @@ def evaluate(case):
                 viol.append(dict(feat, kind="formats_disagree", format=fmt, detail="json %s vs %s %s" % (
                     bl[:2], fmt, [(g["len"], g["hash"], g["paths"]) for g in r[0]][:2])))
     # permutation invariance of the order inside groups
-    a = results.get((("r1", "r1x"), "json"))
-    b = results.get((("r1x", "r1"), "json"))
-    if a and b:
+    a = results.get((ORDERS[0], "json"))
+    for other in ORDERS[1:]:
+        b = results.get((other, "json"))
+        if not (a and b):
+            continue
         ga = {frozenset(g["paths"]): g["paths"] for g in a[0]}
         gb = {frozenset(g["paths"]): g["paths"] for g in b[0]}
         if set(ga) != set(gb):
             viol.append(dict(feat, kind="groups_depend_on_root_order", detail="%s vs %s" % (sorted(map(sorted, ga)), sorted(map(sorted, gb)))))
-        else:
-            for k in ga:
-                if fname == "isolate":
-                    for paths, roots in ((ga[k], ["r1", "r1x"]), (gb[k], ["r1x", "r1"])):
-                        seq = [0 if b"/r1/" in p else 1 for p in paths]
-                        want = [roots.index("r1"), roots.index("r1x")]
-                        seq2 = [want[x] for x in seq]
-                        if seq2 != sorted(seq2):
-                            viol.append(dict(feat, kind="isolate_roots_not_contiguous_in_order",
-                                             detail="roots %s paths %s" % (roots, paths)))
-                    ina = [p for p in ga[k] if b"/r1/" in p], [p for p in ga[k] if b"/r1x/" in p]
-                    inb = [p for p in gb[k] if b"/r1/" in p], [p for p in gb[k] if b"/r1x/" in p]
-                    if ina != inb:
-                        viol.append(dict(feat, kind="path_order_depends_on_root_order", detail="%s vs %s" % (ga[k], gb[k])))
-                elif ga[k] != gb[k]:
+            continue
+        for k in ga:
+            if fname == "isolate":
+                for paths, roots in ((ga[k], ORDERS[0]), (gb[k], other)):
+                    seq = [roots.index(root_of(p)) for p in paths]
+                    if seq != sorted(seq):
+                        viol.append(dict(feat, kind="isolate_roots_not_contiguous_in_order",
+                                         detail="roots %s paths %s" % (list(roots), paths)))
+                ina = [[p for p in ga[k] if root_of(p) == r] for r in ROOTS]
+                inb = [[p for p in gb[k] if root_of(p) == r] for r in ROOTS]
+                if ina != inb:
                     viol.append(dict(feat, kind="path_order_depends_on_root_order", detail="%s vs %s" % (ga[k], gb[k])))
+            elif ga[k] != gb[k]:
+                viol.append(dict(feat, kind="path_order_depends_on_root_order", detail="%s vs %s" % (ga[k], gb[k])))
     nontriv = [case["ti"], fname, case["out"]] if any(g for (g, s) in results.values()) else None
-    return {"violations": viol, "nontrivial": nontriv, "outcome": outcomes, "evaluations": 8,
+    return {"violations": viol, "nontrivial": nontriv, "outcome": outcomes, "evaluations": 12,
             "sample": {"filter": fname, "out": case["out"], "tree": [e["p"] for e in case["tree"]]}}
 
 
